@@ -73,6 +73,7 @@ type FuncContract struct {
 	HasMods    bool
 	Uses       []string
 	Terminates bool
+	Callbacks []string
 }
 
 type ContractFile struct {
@@ -89,7 +90,7 @@ type ContractFile struct {
 var clauseKeywords = map[string]bool{
 	"pred": true, "def": true, "spec": true, "axiom": true, "func": true, "lemma": true,
 	"requires": true, "ensures": true, "modifies": true, "decreases": true, "loop": true,
-	"pure": true, "inline": true, "trusted": true, "terminates": true,
+	"pure": true, "inline": true, "trusted": true, "terminates": true, "callback": true,
 }
 
 func ParseContractFile(path, pkg string) (*ContractFile, error) {
@@ -184,6 +185,9 @@ func ParseContractFile(path, pkg string) (*ContractFile, error) {
 			switch it.kw {
 			case "pure":
 				cur.Pure = append(cur.Pure, splitTrim(it.text, ",")...)
+			case "callback":
+				// callback <field>: calls through this function-valued field are assumed not to touch the modelled heap
+				cur.Callbacks = append(cur.Callbacks, splitTrim(it.text, ",")...)
 			case "inline":
 				cur.Inline = true
 			case "trusted":
@@ -744,7 +748,7 @@ func (l *lexer) parseMul() (Expr, error) {
 }
 
 func (l *lexer) parseUnary() (Expr, error) {
-	for _, op := range []string{"!", "-", "*"} {
+	for _, op := range []string{"!", "-", "*", "&"} {
 		if l.accept(op) {
 			x, err := l.parseUnary()
 			if err != nil {
